@@ -78,7 +78,8 @@ func (p *publisher) publishUpdates(reqs requests) {
 	batchedUpdates := make(map[uint64]*pb.KVList)
 	for _, req := range reqs {
 		for _, e := range req.Entries {
-			ids := p.indexer.Get(e.Key)
+			// Subscribers match on the user key; e.Key also carries the 8 byte version.
+			ids := p.indexer.Get(y.ParseKey(e.Key))
 			if len(ids) == 0 {
 				continue
 			}
